@@ -7,7 +7,7 @@ import json
 import os
 import time
 
-from .index import AnalysisError, ClassInfo, FuncInfo, Repo, norm
+from .index import AnalysisError, ClassInfo, FuncInfo, Repo, norm, short
 
 VERIF = os.path.dirname(os.path.dirname(os.path.abspath(__file__)))
 
@@ -83,7 +83,7 @@ class Ctx:
             line = getattr(node, "lineno", 0)
         file = self.repo.rel(m) if hasattr(m, "path") else ""
         if construct is None:
-            construct = norm(node) if node is not None and not isinstance(node, str) else str(node)
+            construct = short(node) if node is not None and not isinstance(node, str) else str(node)
         f = Finding(self.prop, rule, sym, construct, detail, file, line, path)
         if not any(x.key == f.key for x in self.findings):
             self.findings.append(f)
